@@ -215,6 +215,28 @@ def check_case(run, case):
                                 run.violation(f'password_scorer.py (stdout {oenc}) reports {f[0]!r} with probability {p_!r}; scoring exactly that string gives {mine[2]!r}', case,
                                               observed=line[:120]); return
                     run.ev('scorer_cli_records', nrec)
+                # results into a file (-o FILE) that already exists and holds a longer, older result: the file is this run's result - every record in it that
+                # names a string with a non-zero probability is the score of that string under THIS ruleset, and the strings are the candidates of this run
+                of = os.path.join(sdir, f'c13out_{os.getpid()}.txt')
+                stale = ''.join(f'Stale{i}pw!\tp\t{0.001 * (i % 7 + 1)!r}\t{i % 5}\n' for i in range(3 * len(sub) + 50))
+                open(of, 'wb').write(stale.encode('ascii'))
+                out, err, rc, to = cli.run_cli('password_scorer.py', ['-r', name, '-i', tf, '-o', of], stdin_mode='devnull', timeout=120, max_out=16 << 20)
+                run.ev('scorer_cli_runs'); run.ev('scorer_runs_into_an_existing_results_file')
+                if not to and rc == 0 and os.path.exists(of):
+                    body = open(of, 'rb').read()
+                    for line in body.decode(case['encoding'], 'replace').split('\n'):
+                        f = line.split('\t')
+                        if len(f) != 4:
+                            continue
+                        try:
+                            p_ = float(f[2])
+                        except ValueError:
+                            continue
+                        if p_ > 0 and f[0] not in set(sub):
+                            run.violation(f'password_scorer.py -o FILE (the file existed, with an older, longer result): the file holds a record for {f[0]!r} with probability {p_!r}, '
+                                          'which is not a candidate of this run', case, observed=line[:120]); return
+                if os.path.exists(of):
+                    os.remove(of)
             finally:
                 os.remove(tf)
         run.ev('rulesets')
